@@ -302,3 +302,97 @@ def rule_lsbud(ctx: Ctx) -> List[Ob]:
                   "scipy.optimize._dcsrch.DCSRCH.__init__", "DCSRCH.__init__ body", not ibad,
                   f"callees of __init__ in the installed SciPy source: {icalls}"))
     return obs
+
+
+@rule("LSPROTO", min_instances=4)
+def rule_lsproto(ctx: Ctx) -> List[Ob]:
+    """reverse-communication protocol of DCSRCH as Algorithm 778 drives it: each call receives the step of the previous
+    call and the objective value and slope evaluated at that very step; an 'FG' request is answered by exactly that
+    evaluation, anything else ends the search"""
+    f = ctx.repo.func(LS)
+    cfg = ctx.cfg(f)
+    rd = ctx.rd(f)
+    obs: List[Ob] = []
+    loops = [s for s in walk_no_nested(f.node) if isinstance(s, ast.While)]
+    need(len(loops) == 1, "LSPROTO: trial loop not found")
+    lp = loops[0]
+    its = [c for c in ast.walk(lp) if isinstance(c, ast.Call) and isinstance(c.func, ast.Attribute) and c.func.attr == "_iterate"]
+    need(len(its) == 1, "LSPROTO: DCSRCH._iterate call not found in the trial loop")
+    it = its[0]
+    n_it = cfg.node_of(it)
+    need(len(it.args) == 4 and all(isinstance(a, ast.Name) for a in it.args), "LSPROTO: _iterate is not called with four names (stp, f, g, task)")
+    a_stp, a_f, a_g, a_task = [a.id for a in it.args]
+    # what the call returns
+    st = n_it.ast
+    tg = st.targets[0] if isinstance(st, ast.Assign) and isinstance(st.targets[0], ast.Tuple) else None
+    need(tg is not None and len(tg.elts) == 4 and isinstance(tg.elts[0], ast.Name) and isinstance(tg.elts[3], ast.Name),
+         "LSPROTO: the result of _iterate is not unpacked into (stp, f, g, task)")
+    r_stp, r_task = tg.elts[0].id, tg.elts[3].id
+
+    def copies(nm):
+        out, grew = {nm}, True
+        while grew:
+            grew = False
+            for s_ in ast.walk(lp):
+                if isinstance(s_, ast.Assign) and len(s_.targets) == 1 and isinstance(s_.targets[0], ast.Name) and isinstance(s_.value, ast.Name) \
+                        and s_.value.id in out and s_.targets[0].id not in out:
+                    out.add(s_.targets[0].id)
+                    grew = True
+        return out
+    RSTP, RTASK = copies(r_stp), copies(r_task)
+    ok = a_task in RTASK
+    obs.append(ob("LSPROTO", "the task string returned by dcsrch is the one handed back to it", f, it, ok,
+                  f"task in: {a_task}, task out: {r_task}", construct="_iterate(.., task) -> (.., task)"))
+
+    def loop_defs(name):
+        return [(d, v) for d, v, how in rd.value_exprs(n_it, name) if d is not cfg.entry and cfg.in_loop(d, lp)]
+    # the step fed back is the step returned
+    ds = loop_defs(a_stp)
+    ok = len(ds) == 1 and ds[0][1] is not None and src(ds[0][1]) in RSTP
+    obs.append(ob("LSPROTO", "the step handed to dcsrch is the step it returned at the previous call", f, ds[0][0].ast if ds else it, ok,
+                  f"in the loop {a_stp} <- {[short(v) for _, v in ds]}" + ("" if ok else f": expected `{r_stp}` (otherwise dcsrch interpolates from a point "
+                                                                                     "that was not evaluated)"), construct=f"{a_stp} = {r_stp}"))
+    # f and g are evaluated at x0 + (returned step) * d
+    df = loop_defs(a_f)
+    okf = False
+    whyf = f"in the loop {a_f} <- {[short(v, 50) for _, v in df]}"
+    if len(df) == 1 and isinstance(df[0][1], ast.Call) and (dotted(df[0][1].func) or "").split(".")[-1] in ("fun_and_grad", "fun") and df[0][1].args:
+        from ..flow import Expander
+        pt = Expander(ctx, f).expand(df[0][0], df[0][1].args[0], 6)
+        s_ = _step_of_point(df[0][1].args[0], "x0", "d") or _step_of_point(pt, "x0", "d")
+        okf = s_ in RSTP
+        whyf += f"; evaluated at step `{s_}`"
+    obs.append(ob("LSPROTO", "the value handed to dcsrch is the objective at the step it asked for", f, df[0][0].ast if df else it, okf,
+                  whyf + ("" if okf else f": expected an evaluation at x0 + {r_stp} * d"), construct=f"{a_f} = f(x0 + {r_stp} d)"))
+    dg = loop_defs(a_g)
+    # the slope: the gradient of that same evaluation, dotted with d (the last definition reaching the call)
+    okg = False
+    whyg = f"in the loop {a_g} <- {[short(v, 50) for _, v in dg]}"
+    slope = [(d_, v) for d_, v in dg if v is not None and isinstance(v, ast.Call) and isinstance(v.func, ast.Attribute) and v.func.attr == "dot"
+             and len(v.args) == 1 and src(v.args[0]) == "d"]
+    if len(dg) == 1 and slope and df:
+        inner = slope[0][1].func.value
+        # the dotted vector must be the gradient delivered by the very evaluation that delivered the value
+        gd = [d2 for d2, v2, _ in rd.value_exprs(slope[0][0], inner.id)] if isinstance(inner, ast.Name) else []
+        okg = bool(gd) and all(d2 is df[0][0] for d2 in gd)
+    obs.append(ob("LSPROTO", "the slope handed to dcsrch is grad(x0 + stp d) . d of the same evaluation", f, dg[0][0].ast if dg else it, okg,
+                  whyg + ("" if okg else ": expected <gradient of that evaluation>.dot(d)"), construct=f"{a_g} = g(x0 + {r_stp} d).dot(d)"))
+    # FG -> evaluate; anything else leaves the loop
+    fg = [n for n in cfg.nodes if n.kind == "test" and cfg.in_loop(n, lp) and isinstance(n.ast, ast.Compare) and len(n.ast.ops) == 1
+          and isinstance(n.ast.ops[0], (ast.Eq, ast.NotEq)) and "FG" in src(n.ast) and a_task in src(n.ast)]
+    okp = False
+    whyp = "no test of the task against b'FG' in the loop"
+    if len(fg) == 1 and df:
+        lab_fg = isinstance(fg[0].ast.ops[0], ast.Eq)
+        ev = df[0][0]
+        on_fg = ev in cfg.reachable(fg[0], follow_exc=False, edge_ok=lambda a, b, lab: not (a is fg[0] and lab is (not lab_fg)),
+                                    avoid=lambda m: m.kind == "loophead")
+        on_other = ev in cfg.reachable(fg[0], follow_exc=False, edge_ok=lambda a, b, lab: not (a is fg[0] and lab is lab_fg),
+                                       avoid=lambda m: m.kind == "loophead")
+        head = [n for n in cfg.nodes if n.kind == "loophead" and n.owner is lp]
+        loops_again = bool(head) and head[0] in cfg.reachable(fg[0], follow_exc=False, edge_ok=lambda a, b, lab: not (a is fg[0] and lab is lab_fg))
+        okp = on_fg and not on_other and not loops_again
+        whyp = f"evaluation on the FG branch: {on_fg}; on the other branch: {on_other}; the other branch can iterate again: {loops_again}"
+    obs.append(ob("LSPROTO", "an FG request is answered by one evaluation, any other task ends the search", f, fg[0].ast if fg else lp, okp, whyp,
+                  construct="if task[:2] == b'FG': evaluate else: break"))
+    return obs
